@@ -383,7 +383,7 @@ def main(argv):
             ctx = mp.get_context("fork")
             # wall-clock guard: when the budget is used up no further results are awaited; the shards not finished are
             # reported as inconclusive (never as a violation)
-            budget = float(os.environ.get("VERIF_BUDGET_S", "900" if tier == "quick" else "2400"))
+            budget = float(os.environ.get("VERIF_BUDGET_S", "900" if tier == "quick" else "3600"))
             with ctx.Pool(nproc, maxtasksperchild=None) as pool:
                 it = pool.imap_unordered(run_shard, jobs, chunksize=1)
                 while len(results) < len(jobs):
